@@ -116,6 +116,20 @@ PROPS['C12'] = {
     'claim_draft': "Partial. Lean theorems (MinterProofs/Props/C12.lean; for all supplies v>0, reserves R>0, amounts and CRR): the integer branches of formula.CalculateSaleReturn/PurchaseReturn/PurchaseAmount/SaleAmount (crr=100, amount 0, sell-all) are exact - range, monotonicity, sell-all = reserve, buy-then-sell never returns more than was paid (saleReturnInt_all/_range/_mono, purchaseReturnInt_mono, purchaseAmountInt_mono, saleAmountInt_mono, roundTripInt_*), and each integer result satisfies the exact certificate with tolerance 0 (*Int_cert). For the big.Float branch the theorems are about CERTIFIED results: whenever the decidable exact certificate (natural powers of integers, all bases guarded non-negative) accepts a claimed result r with tolerance d, then -d <= r, a sale returns at most R+d (v+d for saleAmount), results are monotone in the amount up to d+d', selling the whole supply returns the reserve, and buy-then-sell returns at most the payment plus the stated tolerance terms (*Cert_nonneg, *_le_reserve, *_le_supply, *Cert_mono, saleReturnCert_all/_zero, roundTrip_purchaseReturn_saleReturn, roundTrip_purchaseAmount_saleReturn); C12_partial bundles the eleven clauses for results accepted by exactly the predicates the driver evaluates. Tie (translation validation): mode bancor calls the real formula.Calculate* on generated inputs (reachable / wide / degenerate classes, every CRR 10..100, magnitudes up to 10^33 and beyond 2^100) and the Lean certificate, the exact range/monotonicity/sell-all monitors and the round-trip bounds judge every result; integer-branch results must be equal; mode kernels covers the integer kernels. Partial: that the Go float pipeline (big.Float prec 100, exponent passed as float64) satisfies the certificate for ALL inputs is not proved (needs a bit-exact model of math.Exp); tolerances are measured, not derived; no round-trip theorem for saleAmount on float results. Known finding: for reserves above 2^100 pip CalculateSaleReturn can return more than the reserve (and more than selling the whole supply), by at most 1024 pip.",
 }
 
+PROPS['C24'] = {
+    'level': 'proof', 'registered': False,   # partial: the bound (65 534 distinct validator keys) is sharp, see C24Bound
+    'modules': ['MinterProofs.Props.C24', 'MinterProofs.Props.C24Bound'],
+    'theorems': ['Minter.Ev.C24_load_commit_partial', 'Minter.Ev.C24_load_stable', 'Minter.Ev.C24_load_stable_run',
+                 'Minter.Ev.C24_restart_transparent', 'Minter.Ev.C24_tables_injective', 'Minter.Ev.C24_run_faithful',
+                 'Minter.Ev.C24_run_total', 'Minter.Ev.C24_restart_breaks_at_65535', 'Minter.Ev.C24_nokey_breaks_at_65536'],
+    # the tier flag also switches the four id-width sequences on (thorough only)
+    'modes': [{'mode': 'events', 'args': ['-seed', '{seed}', '-n', '{n:300:600}', '-tier', '{tier}', '-driver', '{driver}', '-keep', '{keep}']}],
+    'assumptions': ['tmjson Marshal/Unmarshal of a compacted batch is the identity (exercised by the direct monitor of the mode, not modelled)',
+                    'event strings are valid UTF-8 (the node only stores decimal numbers and [a-zA-Z0-9_]{1,20} version names)',
+                    'tm-db/goleveldb Get after Set returns the value written (exercised, not modelled)'],
+    'claim_draft': "Lean theorems about the model of eventsStore (MinterModel/Events.lean: disk tables + in-memory id caches, uint16/uint32 id arithmetic modelled literally), for every sequence of commit/load/restart operations from an empty DB in which at most 65 534 distinct validator public keys and 2^32-1 distinct addresses occur and every event is well formed (known role, amount >= 0, coin/order ids < 2^32): committing a batch and loading its height returns exactly the batch, every field of every event (C24_load_commit_partial); later commits at other heights, loads and restarts never change what a height loads (C24_load_stable, C24_load_stable_run, C24_restart_transparent); the id<->key and id<->address tables stay injective in the cache and on disk (C24_tables_injective); such a run never panics and afterwards every height loads the batch last committed there (C24_run_total, C24_run_faithful). The bound is sharp, proved on concrete witnesses: with 65 535 distinct keys a restart loses the key table (C24_restart_breaks_at_65535), and the 65 536th key gets id 0 so an unbond event without key loads back with a key (C24_nokey_breaks_at_65536) - the property text ('however many ... have appeared') is false beyond the bound. Tie: mode events drives the real events.NewEventsStore on MemDB and on goleveldb (really closed and reopened) with generated commit/load/restart sequences incl. a malformed stream; (1) direct monitor: every loaded batch equals the committed one token by token, (2) the Lean model must predict every load, panics included (Q evstore / evstoreh). Thorough additionally replays the four id-width sequences on the real store and reports the defect (known finding id-width-6553[56]-...). Partial: JSON encoding of a compacted batch and the DB are trusted (exercised only).",
+}
+
 
 # ---------------------------------------------------------------------------------------------------------------
 # What is claimed (MANIFEST.json is generated from this by tools/gen_manifest.py)
